@@ -35,8 +35,11 @@ def run_e2e(args):
     sp.sedpack(rust=True)
     from sedpack.io import Dataset
     out = []
+    import logging
     for a in args:
         root = a["root"]
+        # the application's logging configuration is not an input of the selection: INFO / DEBUG enabled for the library's loggers
+        logging.getLogger("sedpack").setLevel({"INFO": logging.INFO, "DEBUG": logging.DEBUG}.get(a.get("log"), logging.NOTSET))
         ds = sp.mk(root, fmt=a["fmt"], comp=a["comp"], eps=a["eps"], hashes=None if a.get("hashes") is None else tuple(a["hashes"]))
         v = 0
         with ds.filler() as f:
@@ -170,7 +173,7 @@ def run(ctx):
         cases.append({"root": str(ctx.scratch / f"c12_{i}"), "fmt": fmt, "comp": "", "eps": 2, "groups": groups, "options": options,
                       "shuffles": [0, 3] if ctx.thorough else [0 if i % 2 else 3],
                       # no checksum algorithm is a legal configuration; the handle that selected and iterated keeps being used after a further session
-                      "hashes": [[], None, ["sha256"]][i % 3], "append": True})
+                      "hashes": [[], None, ["sha256"]][i % 3], "append": True, "log": [None, "INFO", "DEBUG"][i % 3]})
     recs = []
     for i in range(0, len(cases), 3):
         recs += child.call("harness.checks.c12", "run_e2e", cases[i:i + 3], timeout=1800)
